@@ -8,6 +8,14 @@ W1_COMPONENTS = {
 }
 
 PROPS = {
+    "C08": {
+        "level": "exploration",
+        "quick_runs": 5000, "quick_budget_s": 60,
+        "thorough_budget_s": 600,
+        "rule": "C08 scenario: bursts and streams of 1-40 queries on stream transports while the server kills connections (close after reply, close after idling, silent death = reset on next write, close with queries in flight); dials always succeed.",
+        "components": W1_COMPONENTS,
+        "cfg_dist_keys": ["kind", "burst", "p_close_after", "p_silent_kill"],
+    },
     "C07": {
         "level": "exploration",
         "quick_runs": 5000, "quick_budget_s": 60,
